@@ -46,6 +46,7 @@ type FakeInformer struct {
 	indexer  sortedIndexer
 	handlers []cache.ResourceEventHandler
 	queues   [][]notification // per handler: notifications not yet run (handler lag)
+	noResync []bool           // per handler: registered with resync period 0 (no periodic resync)
 	Synced   bool
 
 	// ReplayOnRegister makes AddEventHandler queue, for the new handler, one add notification
@@ -56,6 +57,15 @@ type FakeInformer struct {
 	// HasSynced only speaks about the store).  The notifications run on NotifyNext /
 	// NotifyNextFor / Flush like any other.
 	ReplayOnRegister bool
+
+	// OnRegister, when set, runs at the end of AddEventHandler with the index of the handler that
+	// has just joined.  client-go notifies a handler of every change from its registration on,
+	// while the code that registered it may read the lister only later (activejobstore.Recover:
+	// AddEventHandler, wait for HasSynced — a 100 ms poll —, THEN Lister().List()).  An engine
+	// uses the hook to let watch events be applied to the cache (Deliver: the notification is
+	// queued for the handlers registered so far) inside that window, without goroutines.  The hook
+	// is taken off while it runs, so a registration made from inside it does not re-enter.
+	OnRegister func(h int)
 }
 
 type notification struct {
@@ -76,8 +86,14 @@ var _ cache.SharedIndexInformer = (*FakeInformer)(nil)
 func (f *FakeInformer) AddEventHandler(h cache.ResourceEventHandler) {
 	f.handlers = append(f.handlers, h)
 	f.queues = append(f.queues, nil)
+	f.noResync = append(f.noResync, false)
 	if f.ReplayOnRegister {
 		f.ReplayExisting(len(f.handlers) - 1)
+	}
+	if hook := f.OnRegister; hook != nil {
+		f.OnRegister = nil
+		hook(len(f.handlers) - 1)
+		f.OnRegister = hook
 	}
 }
 
@@ -88,8 +104,15 @@ func (f *FakeInformer) ReplayExisting(h int) {
 		f.queues[h] = append(f.queues[h], notification{"add", nil, o})
 	}
 }
-func (f *FakeInformer) AddEventHandlerWithResyncPeriod(h cache.ResourceEventHandler, _ time.Duration) {
+
+// AddEventHandlerWithResyncPeriod: a handler registered with period 0 opts out of the periodic
+// resync (client-go: "a resyncPeriod of zero means the handler does not care about resyncs");
+// AddEventHandler registers with the informer's default period, which is non-zero in production
+// (controllercontext.SetUpInformers, DefaultResync 10 min).  The length of a non-zero period is
+// not modelled: Resync() is an explicit engine action.
+func (f *FakeInformer) AddEventHandlerWithResyncPeriod(h cache.ResourceEventHandler, d time.Duration) {
 	f.AddEventHandler(h)
+	f.noResync[len(f.handlers)-1] = d == 0
 }
 func (f *FakeInformer) GetStore() cache.Store                                { return f.indexer }
 func (f *FakeInformer) GetController() cache.Controller                      { return nil }
@@ -163,13 +186,57 @@ func (f *FakeInformer) Apply(kind string, obj interface{}) {
 	}
 }
 
-// Resync queues, for every handler, an update(o, o) notification for every cached object
-// (periodic resync); the notifications run on NotifyNext / Flush like any other.
+// Resync queues, for every handler that asked for resyncs (every handler but those registered
+// with AddEventHandlerWithResyncPeriod(h, 0)), an update(o, o) notification for every cached
+// object (periodic resync); the notifications run on NotifyNext / Flush like any other.
 func (f *FakeInformer) Resync() {
 	for _, o := range f.indexer.List() {
 		for i := range f.handlers {
+			if f.noResync[i] {
+				continue
+			}
 			f.queues[i] = append(f.queues[i], notification{"update", o, o})
 		}
+	}
+}
+
+// Relist replaces the cache by objs (the server's current objects of this resource) the way a
+// reflector does after its watch failed (410 Gone / any watch error): DeltaFIFO.Replace pairs the
+// cached and the listed object BY KEY ONLY, so every handler is sent, in key order, add for a key
+// the cache did not hold, update(cachedOld, listed) for a key on both sides whose
+// resourceVersion differs (the two may be different objects: other UID, other owner), nothing for
+// an unchanged object, and then, in key order, delete with a cache.DeletedFinalStateUnknown
+// tombstone carrying the last CACHED state for every key that is gone.  The caller drops the
+// undelivered watch events of the resource (the new watch starts at the list's version).
+func (f *FakeInformer) Relist(objs []interface{}) {
+	objs = sortObjs(append([]interface{}(nil), objs...))
+	listed := map[string]bool{}
+	var notes []notification
+	for _, o := range objs {
+		key, _ := cache.MetaNamespaceKeyFunc(o)
+		listed[key] = true
+		old, ok := f.CacheGet(o)
+		f.CacheSet(o)
+		if !ok {
+			notes = append(notes, notification{"add", nil, o})
+			continue
+		}
+		om, _ := meta.Accessor(old)
+		nm, _ := meta.Accessor(o)
+		if om.GetResourceVersion() != nm.GetResourceVersion() {
+			notes = append(notes, notification{"update", old, o})
+		}
+	}
+	for _, old := range f.indexer.List() {
+		key, _ := cache.MetaNamespaceKeyFunc(old)
+		if listed[key] {
+			continue
+		}
+		f.CacheDel(old)
+		notes = append(notes, notification{"delete", nil, cache.DeletedFinalStateUnknown{Key: key, Obj: old}})
+	}
+	for i := range f.handlers {
+		f.queues[i] = append(f.queues[i], notes...)
 	}
 }
 
@@ -177,6 +244,9 @@ func (f *FakeInformer) Resync() {
 func (f *FakeInformer) Keys() []string { return f.indexer.ListKeys() }
 
 func accessorName(obj interface{}) string {
+	if t, ok := obj.(cache.DeletedFinalStateUnknown); ok {
+		obj = t.Obj
+	}
 	a, err := meta.Accessor(obj)
 	if err != nil {
 		return "?"
@@ -287,6 +357,7 @@ func (f *FakeInformer) Flush() {
 func (f *FakeInformer) ResetHandlers() {
 	f.handlers = nil
 	f.queues = nil
+	f.noResync = nil
 }
 
 // ClearCache empties the cache.
